@@ -1,6 +1,6 @@
 (* C19: the theorems (proved here, restated in Properties.v). *)
 From Coq Require Import List NArith Bool Lia ZifyN ZifyBool.
-From Gv Require Import lib.Bytes C19.Model C19.Spec C19.Causes C19.ProofsBase C19.ProofsSim gen.Anchors_C19.
+From Gv Require Import lib.Bytes C19.Model C19.ModelV0 C19.Spec C19.Causes C19.ProofsBase C19.ProofsSim gen.Anchors_C19.
 Import ListNotations.
 Open Scope N_scope.
 
@@ -27,20 +27,21 @@ Proof. repeat split; reflexivity. Qed.
 Definition msgs (ms : list mtype) (i : id) : list output := map (fun m => OMsg m i) ms.
 
 Lemma model_uses_emit_table pr st i t o :
-  snd (stop_subscription st i) = emit st (msgs (lookup_ev ev_completed (emit_table pr)) i)
-  /\ (find_op t (s_ops st) = Some o -> o_kind o = KSub ->
+  (active st i = true ->
+   snd (stop_subscription st i) = emit st (msgs (lookup_ev ev_completed (emit_table pr)) i))
+  /\ (find_op t (s_ops st) = Some o -> o_kind o = KSub -> o_cancelled o = false ->
       snd (exec_flush pr st t) = emit st (msgs (lookup_ev ev_data (emit_table pr)) (o_id o))
-      /\ snd (exec_return pr st t RData false) = emit st (msgs (lookup_ev ev_data (emit_table pr)) (o_id o))
-      /\ snd (exec_return pr st t RErr false) = emit st (msgs (lookup_ev ev_error (emit_table pr)) (o_id o)))
-  /\ (find_op t (s_ops st) = Some o -> o_kind o = KQuery ->
+      /\ snd (exec_return pr st t RData true) = emit st (msgs (lookup_ev ev_data (emit_table pr)) (o_id o))
+      /\ snd (exec_return pr st t RErr true) = emit st (msgs (lookup_ev ev_error (emit_table pr)) (o_id o)))
+  /\ (find_op t (s_ops st) = Some o -> o_kind o = KQuery -> o_cancelled o = false ->
       snd (exec_return pr st t RData false) = emit st (msgs (lookup_ev ev_nonsub_result (emit_table pr)) (o_id o))
       /\ snd (exec_return pr st t RErr false) = emit st (msgs (lookup_ev ev_error (emit_table pr)) (o_id o)))
   /\ (active st i = true ->
       snd (start_operation GWS st i PSub) = emit st (msgs (lookup_ev ev_duplicate (emit_table GWS)) i)).
 Proof.
-  split; [destruct pr; reflexivity|]. split; [|split].
-  - intros F K. unfold exec_flush, exec_return. rewrite F, K. destruct pr; repeat split; reflexivity.
-  - intros F K. unfold exec_return. rewrite F, K. destruct pr; split; reflexivity.
+  split; [intros A; unfold stop_subscription; rewrite A; destruct pr; reflexivity|]. split; [|split].
+  - intros F K C. unfold exec_flush, exec_return. rewrite F, K, C. destruct pr; repeat split; reflexivity.
+  - intros F K C. unfold exec_return. rewrite F, K, C. destruct pr; split; reflexivity.
   - intros A. unfold start_operation. rewrite A. reflexivity.
 Qed.
 
@@ -73,28 +74,22 @@ Proof.
   rewrite E. reflexivity.
 Qed.
 
-(* ---------------------------------------------------------------- refutations: one witness per cause and protocol *)
+(* ---------------------------------------------------------------- refutations *)
 Definition w_tws_stop_unknown : list input := [CInit INone; CSubscribe 1 PQuery; ERet 0 RData false; CComplete 1].
 Definition w_tws_stop_before_init : list input := [CComplete 1].
 Definition w_tws_emit_after_cancel : list input := [CInit INone; CSubscribe 1 PQuery; CComplete 1; ERet 0 RData false].
 Definition w_tws_sub_error : list input := [CInit INone; CSubscribe 1 PSub; ERet 0 RErr true; EFlush 0].
+Definition w_tws_sub_error_id_taken : list input := [CInit INone; CSubscribe 1 PSub; ERet 0 RErr true; CSubscribe 1 PSub].
 Definition w_gws_stop_unknown : list input := [CStart 1 PQuery; ERet 0 RData false; CStop 1].
 Definition w_gws_emit_after_cancel : list input := [CStart 1 PSub; CStop 1; EFlush 0].
 Definition w_gws_sub_error : list input := [CStart 1 PSub; ERet 0 RErr true; ERet 0 RData true].
 
+(* the current code: one cause left *)
 Lemma refuted_witnesses :
-  (causes_of TWS w_tws_stop_unknown = [KStopUnknown]
-   /\ monitor_check TWS w_tws_stop_unknown (run_outs TWS w_tws_stop_unknown) = inr (3%nat, VTerminalNoOp))
-  /\ (causes_of TWS w_tws_stop_before_init = [KStopUnknown]
-   /\ monitor_check TWS w_tws_stop_before_init (run_outs TWS w_tws_stop_before_init) = inr (0%nat, VTerminalNoOp))
-  /\ (causes_of TWS w_tws_emit_after_cancel = [KEmitAfterCancel]
-   /\ monitor_check TWS w_tws_emit_after_cancel (run_outs TWS w_tws_emit_after_cancel) = inr (3%nat, VDataNoOp))
-  /\ (causes_of TWS w_tws_sub_error = [KSubErrorGoesOn]
+  (causes_of TWS w_tws_sub_error = [KSubErrorGoesOn]
    /\ monitor_check TWS w_tws_sub_error (run_outs TWS w_tws_sub_error) = inr (3%nat, VDataNoOp))
-  /\ (causes_of GWS w_gws_stop_unknown = [KStopUnknown]
-   /\ monitor_check GWS w_gws_stop_unknown (run_outs GWS w_gws_stop_unknown) = inr (2%nat, VTerminalNoOp))
-  /\ (causes_of GWS w_gws_emit_after_cancel = [KEmitAfterCancel]
-   /\ monitor_check GWS w_gws_emit_after_cancel (run_outs GWS w_gws_emit_after_cancel) = inr (2%nat, VDataNoOp))
+  /\ (causes_of TWS w_tws_sub_error_id_taken = [KSubErrorGoesOn]
+   /\ monitor_check TWS w_tws_sub_error_id_taken (run_outs TWS w_tws_sub_error_id_taken) = inr (3%nat, VCloseCode))
   /\ (causes_of GWS w_gws_sub_error = [KSubErrorGoesOn]
    /\ monitor_check GWS w_gws_sub_error (run_outs GWS w_gws_sub_error) = inr (2%nat, VDataNoOp)).
 Proof. vm_compute. repeat split; reflexivity. Qed.
@@ -102,14 +97,38 @@ Proof. vm_compute. repeat split; reflexivity. Qed.
 Theorem trace_accepted_refuted_proof pr : ~ trace_accepted pr.
 Proof.
   intros H. destruct pr.
-  - specialize (H w_tws_emit_after_cancel). vm_compute in H. discriminate.
-  - specialize (H w_gws_emit_after_cancel). vm_compute in H. discriminate.
+  - specialize (H w_tws_sub_error). vm_compute in H. discriminate.
+  - specialize (H w_gws_sub_error). vm_compute in H. discriminate.
 Qed.
 
-(* each cause is needed in the exclusion: for each there is a trace with only that cause that the
-   monitor rejects *)
-Theorem each_cause_refutes_proof pr (k : cause) :
-  exists ins, causes_of pr ins = [k] /\ monitor_accepts pr ins (run_outs pr ins) = false.
+Theorem sub_error_refutes_proof pr :
+  exists ins, causes_of pr ins = [KSubErrorGoesOn] /\ monitor_accepts pr ins (run_outs pr ins) = false.
+Proof.
+  destruct pr.
+  - exists w_tws_sub_error. vm_compute. split; reflexivity.
+  - exists w_gws_sub_error. vm_compute. split; reflexivity.
+Qed.
+
+(* historical: the code as found (ModelV0) -- each of the three causes refuted the full statement
+   on its own, under either protocol *)
+Definition trace_accepted_v0 (pr : proto) : Prop :=
+  forall ins : list input, monitor_accepts pr ins (run_outs_v0 pr ins) = true.
+
+Lemma refuted_witnesses_v0 :
+  (causes_of_v0 TWS w_tws_stop_unknown = [KStopUnknown]
+   /\ monitor_check TWS w_tws_stop_unknown (run_outs_v0 TWS w_tws_stop_unknown) = inr (3%nat, VTerminalNoOp))
+  /\ (causes_of_v0 TWS w_tws_stop_before_init = [KStopUnknown]
+   /\ monitor_check TWS w_tws_stop_before_init (run_outs_v0 TWS w_tws_stop_before_init) = inr (0%nat, VTerminalNoOp))
+  /\ (causes_of_v0 TWS w_tws_emit_after_cancel = [KEmitAfterCancel]
+   /\ monitor_check TWS w_tws_emit_after_cancel (run_outs_v0 TWS w_tws_emit_after_cancel) = inr (3%nat, VDataNoOp))
+  /\ (causes_of_v0 GWS w_gws_stop_unknown = [KStopUnknown]
+   /\ monitor_check GWS w_gws_stop_unknown (run_outs_v0 GWS w_gws_stop_unknown) = inr (2%nat, VTerminalNoOp))
+  /\ (causes_of_v0 GWS w_gws_emit_after_cancel = [KEmitAfterCancel]
+   /\ monitor_check GWS w_gws_emit_after_cancel (run_outs_v0 GWS w_gws_emit_after_cancel) = inr (2%nat, VDataNoOp)).
+Proof. vm_compute. repeat split; reflexivity. Qed.
+
+Theorem each_cause_refuted_v0_proof pr (k : cause) :
+  exists ins, causes_of_v0 pr ins = [k] /\ monitor_accepts pr ins (run_outs_v0 pr ins) = false.
 Proof.
   destruct pr, k.
   - exists w_tws_stop_unknown. vm_compute. split; reflexivity.
@@ -119,6 +138,15 @@ Proof.
   - exists w_gws_emit_after_cancel. vm_compute. split; reflexivity.
   - exists w_gws_sub_error. vm_compute. split; reflexivity.
 Qed.
+
+(* ... and the witnesses of the two repaired causes are accepted on the current code *)
+Lemma repaired_witnesses_accepted :
+  monitor_accepts TWS w_tws_stop_unknown (run_outs TWS w_tws_stop_unknown) = true
+  /\ monitor_accepts TWS w_tws_stop_before_init (run_outs TWS w_tws_stop_before_init) = true
+  /\ monitor_accepts TWS w_tws_emit_after_cancel (run_outs TWS w_tws_emit_after_cancel) = true
+  /\ monitor_accepts GWS w_gws_stop_unknown (run_outs GWS w_gws_stop_unknown) = true
+  /\ monitor_accepts GWS w_gws_emit_after_cancel (run_outs GWS w_gws_emit_after_cancel) = true.
+Proof. vm_compute. repeat split; reflexivity. Qed.
 
 (* ---------------------------------------------------------------- full-strength clauses *)
 (* nothing reaches the wire once the socket is closed, and it stays closed *)
@@ -221,8 +249,9 @@ Proof.
     + unfold handle_tws. rewrite (H1 eq_refl). simpl.
       destruct p; try discriminate; unfold start_operation; rewrite H0; simpl; exact Hc.
     + unfold handle_gws. destruct p; try discriminate; unfold start_operation; rewrite H0; simpl; exact Hc.
-  - destruct pr; unfold step; rewrite Hc; simpl; unfold emit; rewrite Hc; reflexivity.
-  - destruct pr; unfold step; rewrite Hc; simpl; unfold active, cancel_id, set_ops; simpl;
-      rewrite active_cancel_some, N.eqb_refl; apply andb_false_r.
-  - destruct pr; unfold step; rewrite Hc; simpl; exact Hc.
+  - destruct pr; unfold step; rewrite Hc; simpl; unfold stop_subscription; rewrite H; simpl;
+      unfold emit; rewrite Hc; reflexivity.
+  - destruct pr; unfold step; rewrite Hc; simpl; unfold stop_subscription; rewrite H; simpl;
+      unfold active, cancel_id, set_ops; simpl; rewrite active_cancel_some, N.eqb_refl; apply andb_false_r.
+  - destruct pr; unfold step; rewrite Hc; simpl; unfold stop_subscription; rewrite H; simpl; exact Hc.
 Qed.
